@@ -214,4 +214,50 @@ theorem stop_later_same (search : Nat → Option Ans) (j j' fuel k : Nat) (hjj :
       | some b => rw [hs] at h; exact h
       | none => rw [hs] at h; exact ih (k + 1) h
 
+@[simp] theorem visible_none (k i : Nat) : visible none k i = false := rfl
+
+theorem visible_next (s : Nat × Nat) (k i : Nat) (h : visible (some s) k i = true) : visible (some s) (k + 1) 0 = true := by
+  obtain ⟨k0, i0⟩ := s
+  simp only [visible, Bool.or_eq_true, Bool.and_eq_true, decide_eq_true_eq] at h ⊢
+  left; omega
+
+theorem inner_stop (iter : Nat → Nat → Option Ans) (s : Nat × Nat) (k f i : Nat) :
+    inner iter (some s) k f i = inner iter none k f i ∨
+    (inner iter (some s) k f i = none ∧ visible (some s) (k + 1) 0 = true) := by
+  induction f generalizing i with
+  | zero => left; rfl
+  | succ n ih =>
+    simp only [inner]
+    cases hv : visible (some s) k i with
+    | true => right; exact ⟨by simp, visible_next s k i hv⟩
+    | false =>
+      simp only [visible, Bool.false_eq_true, if_false]
+      cases hs : iter k i with
+      | some a => left; rfl
+      | none => exact ih (i + 1)
+
+theorem solve2_stopped_unknown (iter : Nat → Nat → Option Ans) (s : Nat × Nat) (budget : Nat → Nat) (F k : Nat)
+    (h : visible (some s) k 0 = true) : solve2 iter (some s) budget F k = .unknown := by
+  cases F with
+  | zero => rfl
+  | succ n => simp [solve2, h]
+
+/-- a request at any poll of any round: the answer is unknown or the answer of the run without the request -/
+theorem solve2_unknown_or_same (iter : Nat → Nat → Option Ans) (s : Nat × Nat) (budget : Nat → Nat) (F k : Nat) :
+    solve2 iter (some s) budget F k = .unknown ∨ solve2 iter (some s) budget F k = solve2 iter none budget F k := by
+  induction F generalizing k with
+  | zero => left; rfl
+  | succ n ih =>
+    cases hv : visible (some s) k 0 with
+    | true => left; exact solve2_stopped_unknown iter s budget (n + 1) k hv
+    | false =>
+      simp only [solve2, hv, visible_none, Bool.false_eq_true, if_false]
+      rcases inner_stop iter s k (budget k) 0 with he | ⟨hn, hv'⟩
+      · rw [he]
+        cases hi : inner iter none k (budget k) 0 with
+        | some a => right; rfl
+        | none => exact ih (k + 1)
+      · rw [hn]; left
+        exact solve2_stopped_unknown iter s budget n (k + 1) hv'
+
 end Osmt.Conc
